@@ -312,6 +312,22 @@ SyncBits(id) ==
   ELSE {}
 SyncKnown(id) == id \in DOMAIN live /\ id \in DOMAIN equip
 
+(* The reply of managedHandleSyncConn, built in two critical sections (the *)
+(* device's data under mu, then the server list under gcaServers.mu).      *)
+(* Unknown devices get a refusal.                                          *)
+NoMigration == [present |-> FALSE, newgca |-> NoKey, newid |-> 0, sig |-> NoSig]
+SyncData(id) ==      \* first section
+  [known  |-> SyncKnown(id),
+   key    |-> IF id \in DOMAIN equip THEN equip[id].key ELSE NoKey,
+   offset |-> offset,
+   bits   |-> SyncBits(id),
+   mig    |-> IF id \in DOMAIN equip /\ equip[id].key \in DOMAIN migr
+              THEN [present |-> TRUE, newgca |-> migr[equip[id].key].newgca,
+                    newid |-> migr[equip[id].key].newid, sig |-> migr[equip[id].key].sig]
+              ELSE NoMigration,
+   migservers |-> IF id \in DOMAIN equip /\ equip[id].key \in DOMAIN migr
+                  THEN migr[equip[id].key].servers ELSE <<>>]
+
 -----------------------------------------------------------------------------
 (* Authorized servers (gcaServers.mu). A server entry is                    *)
 (* [key, banned, loc, ports, sig].                                          *)
@@ -514,6 +530,16 @@ Dedup(s, acc) == IF s = <<>> THEN acc
                  ELSE IF \E i \in 1..Len(acc) : acc[i] = Head(s) THEN Dedup(Tail(s), acc)
                  ELSE Dedup(Tail(s), Append(acc, Head(s)))
 DiskView == [disk EXCEPT !.reports = Dedup(@, <<>>)]
+
+(* C10: bit i of the sync bitfield is set iff a (possibly banned) record is *)
+(* held for timeslot offset + i; unknown and banned ids are refused        *)
+SyncBitsOK ==
+  /\ \A id \in DOMAIN equip :
+        LET d == SyncData(id) IN
+        /\ d.known /\ d.key = equip[id].key /\ d.offset = offset
+        /\ \A i \in 0 .. (Window - 1) : (i \in d.bits) = (Slot(live, id, offset + i).v # Zero)
+        /\ d.bits \subseteq 0 .. (Window - 1)
+  /\ \A id \in bans : ~SyncData(id).known
 
 (* C04: what a restart would produce, compared with memory after catch-up  *)
 PersistedView ==
